@@ -50,6 +50,9 @@ type semRun struct {
 	Depth      int
 	Workers    int
 	Exhaustive bool
+	// CacheOn: the cases of this run are rendered with plush.CacheEnabled (a process-wide switch: the
+	// run has a worker pool of its own, and every case carries "cache":true for its replay)
+	CacheOn bool
 }
 
 func registerSem(s semSpec) {
@@ -63,7 +66,15 @@ func runSemSpec(c *Ctx, s *semSpec) error {
 	}
 	run := func(raw json.RawMessage) { semRunCase(c, s, raw) }
 	if c.ReplayPath != "" {
-		return replayFile(c, run)
+		defer func() { plush.CacheEnabled = false }()
+		return replayFile(c, func(raw json.RawMessage) {
+			var probe struct {
+				Cache bool `json:"cache"`
+			}
+			_ = json.Unmarshal(raw, &probe)
+			plush.CacheEnabled = probe.Cache
+			run(raw)
+		})
 	}
 	runs := s.Quick
 	if c.Thorough() {
@@ -90,8 +101,30 @@ func runSemSpec(c *Ctx, s *semSpec) error {
 		if r.Module != "" {
 			mod = r.Module
 		}
-		_, err = c.mustTLC(mod+"/"+r.Cfg, TLCOpts{Module: mod, Cfg: r.Cfg, Workers: w, Simulate: r.Simulate, Depth: r.Depth,
-			Seed: c.Seed, Timeout: 45 * time.Minute}, exh, pool.feed)
+		feed := pool.feed
+		if r.CacheOn {
+			pool.close() // nothing is in flight while the switch changes
+			plush.CacheEnabled = true
+			pool = newPool(12, run)
+			p := pool
+			feed = func(raw json.RawMessage) {
+				if n := len(raw); n > 1 && raw[n-1] == '}' {
+					raw = append(append(json.RawMessage{}, raw[:n-1]...), []byte(`,"cache":true}`)...)
+				}
+				p.feed(raw)
+			}
+		}
+		name := mod + "/" + r.Cfg
+		if r.CacheOn {
+			name += "+cache"
+		}
+		_, err = c.mustTLC(name, TLCOpts{Module: mod, Cfg: r.Cfg, Workers: w, Simulate: r.Simulate, Depth: r.Depth,
+			Seed: c.Seed, Timeout: 45 * time.Minute}, exh, feed)
+		if r.CacheOn {
+			pool.close()
+			plush.CacheEnabled = false
+			pool = newPool(12, run)
+		}
 		if err != nil {
 			break
 		}
@@ -208,7 +241,7 @@ func semRunCase(c *Ctx, s *semSpec, raw json.RawMessage) {
 		}
 		c.Fail(sig, fmt.Sprintf("%s  [%s]: %s", src, mode, v.Msg),
 			map[string]interface{}{"gen": sc.Gen, "src": srcToks(&sc, mode), "data": sc.Data, "parts": sc.PartsR, "expect": sc.Expect,
-				"shape": sc.Shape, "source_text": src, "observed": v.Obs})
+				"shape": sc.Shape, "source_text": src, "cache": sc.Cache, "observed": v.Obs})
 	}
 	if s.Via && sc.Expect.K != "unspec" {
 		for mode, src := range sc.sources() {
@@ -279,8 +312,8 @@ func init() {
 	})
 	registerSem(semSpec{
 		ID: "C17", Module: "GenCompose", CheckLog: false,
-		Quick:    []semRun{{Cfg: "GenCompose.quick.cfg", Workers: 8}, {Cfg: "GenCompose.quick2.cfg", Workers: 8}},
-		Thorough: []semRun{{Cfg: "GenCompose.thorough.cfg", Workers: 12}},
+		Quick:    []semRun{{Cfg: "GenCompose.quick.cfg", Workers: 8}, {Cfg: "GenCompose.quick2.cfg", Workers: 8}, {Cfg: "GenCompose.quick.cfg", Workers: 8, CacheOn: true}},
+		Thorough: []semRun{{Cfg: "GenCompose.thorough.cfg", Workers: 12}, {Cfg: "GenCompose.quick2.cfg", Workers: 12, CacheOn: true}},
 		Rule:     "GenCompose.tla: bodies of up to MaxItems items (literal text with markup and quotes, the passed data, a caller's variable, loop, condition, trusted HTML, a nested partial, a let that rebinds the data name) x 17 composition mechanisms (partial plain / .js / .html / without data, one and two levels of layout, layout under javascript, nested partial, contentFor+contentOf once / twice with different data / redefined, contentOf default block for an undefined name, undefined name without default (error), defined name with an unused default, block helper with caller's / own context, block helper returning string) x content type {unset, html, javascript}. TLC checks InlineTheorem (composed = inline where no layout / JS escaping / re-escaping is involved) and FrameTheorem on the reference semantics. Real plush must render the model's output (JS escaping per character as template.JSEscapeString) for the composed AND the inlined source. distinct_nontrivial = distinct (mechanism, content type, body) shapes.",
 	})
 	registerSem(semSpec{
